@@ -18,11 +18,19 @@ What is NOT provable in a model and is searched for at run time instead
 (harness/props/c18.py, sanitizer tier): out-of-bounds accesses, use after
 free, undefined behaviour of the real machine code.
 
+ (c) reference ownership where the C code hands references over or replaces
+     them: `_warn_on_attribute_error` (a failing default computation under any
+     warnings filter) and the raw `CTrait` entry points with ALIASED arguments
+     (`Model/RefLedger` `Warn`, `Raw`), plus the structural facts translated
+     from the working tree that those models rest on (a stolen reference is not
+     released again; a field is not released before it is stored again).
+
 Only property theorems and their non-vacuity examples live here; helpers are
-in Lemmas/CTabIndex.lean and Lemmas/CTabLedger.lean.
+in Lemmas/CTabIndex.lean, Lemmas/CTabLedger.lean and Lemmas/CTabRaw.lean.
 -/
 import TraitsVerif.Lemmas.CTabIndex
 import TraitsVerif.Lemmas.CTabLedger
+import TraitsVerif.Lemmas.CTabRaw
 namespace TraitsVerif.Props.C18
 open TraitsVerif TraitsVerif.Generated TraitsVerif.Model.FuncIndex TraitsVerif.Lemmas.CTab
 
@@ -479,6 +487,146 @@ example :
     let r2 := step E c r1.2 (.set "x" 7 4)
     r1.1 = none ∧ held r1.2 6 = 1 ∧ held r1.2 9 = 0 ∧ held r1.2 7 = 1 ∧ held r1.2 5 = 0 ∧
       r2 = (some .traitError, r1.2) := by
+  decide
+
+/-! ## (c) References handed over, references replaced -/
+
+/-- **A stolen reference is not released again.**  In the working tree's
+`ctraits.c`, no variable passed in a reference-STEALING argument position
+(`PyException_SetCause` 2nd, `PyTuple_SET_ITEM` / `PyList_SET_ITEM` 3rd,
+`PyErr_Restore` all three) is `Py_DECREF`ed / `Py_XDECREF`ed / `Py_CLEAR`ed
+afterwards in the same function before being assigned again.  (Translated;
+releasing `exc_value` after `PyException_SetCause` in
+`_warn_on_attribute_error` breaks it.) -/
+theorem C18_stolen_not_released :
+    ("_warn_on_attribute_error", "PyException_SetCause", "exc_value", 0) ∈ CTables.stolenThenReleased ∧
+    ∀ r ∈ CTables.stolenThenReleased, r.2.2.2 = 0 := by
+  decide
+
+open TraitsVerif.Model.RefLedger.Warn in
+/-- **A failing default computation is reference-neutral** for the exception
+object it raised, whatever the exception class and the warnings filter:
+`_warn_on_attribute_error` ends owning no reference (`own = 0`), and the one
+reference it started with (the error indicator's) is afterwards held by exactly
+one owner - the error indicator again, or the `__cause__` slot of the
+`UserWarning` that replaced the exception. -/
+theorem C18_default_failure_neutral (attrErr : Bool) (m : Mode) :
+    let l := warnOnAttributeError attrErr m
+    l.own = 0 ∧ l.indicator + l.cause = 1 ∧ (l.warningRaised = true → l.indicator = 0 ∧ l.cause = 1) ∧
+      (l.warningRaised = true ↔ (attrErr = true ∧ m = .error)) := by
+  cases attrErr <;> cases m <;> decide
+
+open TraitsVerif.Model.RefLedger.Warn in
+/-- What every way of asking for the value observes: nothing is left over after what came out has been
+released (`after = 0`); what came out holds exactly one reference to the exception object, unless the
+caller swallowed it; the `UserWarning` has the exception as `__cause__`. -/
+theorem C18_default_failure_observed (attrErr : Bool) (m : Mode) (a : Access) :
+    let o := observe attrErr m a
+    o.after = 0 ∧ (o.out = .swallowed → o.held = 0) ∧ (o.out ≠ .swallowed → o.held = 1) ∧
+      (o.out = .warning → o.cause = true) ∧
+      (o.out = .swallowed ↔ (attrErr = true ∧ m ≠ .error ∧ a.swallowsAttributeError = true)) := by
+  cases attrErr <;> cases m <;> cases a <;> decide
+
+example :
+    (Model.RefLedger.Warn.observe true .error .hasattr).out = .warning ∧
+    (Model.RefLedger.Warn.observe true .dflt .hasattr).out = .swallowed ∧
+    (Model.RefLedger.Warn.observe false .error .hasattr).out = .orig := by decide
+
+/-- The statement "no field is released before it is stored again" (a
+`Py_DECREF` / `Py_XDECREF` applied directly to a struct field that the same
+function assigns afterwards: the release can run finalizers - and, when the new
+value is the old one, frees it - while the field still points to the released
+object).  FALSE for the pinned tree: `_trait_set_validate` does
+`Py_XDECREF(trait->py_validate); trait->py_validate = validate;` (F79). -/
+def C18_no_release_before_store : Prop :=
+  ∀ r ∈ CTables.fieldReleases, r.2.2 = false
+
+/-- Everywhere else it holds: `_trait_set_validate` is the only function of the
+working tree that releases a field it then stores (translated; `trait_clone`
+releasing the target's fields before copying breaks this theorem). -/
+theorem C18_no_release_before_store_partial :
+    ∀ r ∈ CTables.fieldReleases, r.2.2 = true → r = ("_trait_set_validate", "trait->py_validate", true) := by
+  decide
+
+theorem C18_no_release_before_store_is_false : ¬ C18_no_release_before_store := by
+  unfold C18_no_release_before_store
+  decide
+
+/-- **`trait_clone` owns what it copies and releases nothing**: every
+reference-holding field of `trait_object` that it copies from the source is
+INCREF'ed afterwards, the two fields it does not copy are `notifiers` and
+`obj_dict`, and (previous theorem) it releases no field. -/
+theorem C18_clone_owns_what_it_copies :
+    (∀ f ∈ CTables.traitObjectFields, (f, true) ∈ CTables.traitCloneCopies ∨ f = "notifiers" ∨ f = "obj_dict") ∧
+    (∀ c ∈ CTables.traitCloneCopies, c.2 = true → c.1 ∈ CTables.traitObjectFields) ∧
+    (∀ r ∈ CTables.fieldReleases, r.1 ≠ "trait_clone") := by
+  decide
+
+open TraitsVerif.Model.RefLedger.Raw TraitsVerif.Lemmas.Raw in
+/-- **Raw `CTrait` calls keep every pointer backed by a reference - aliased
+arguments included.**  For the entry points that store before they release
+(`set_value`: handler / post_setattr / `__dict__`; `_trait_set_default_value`;
+`Py_CLEAR`), for those that release nothing (`_trait_set_property`,
+`trait_clone`), for `t.__setstate__(s.__getstate__())`, for the getters and for
+a field set again from its own getter: if every slot was backed by a reference
+before the call, it is at every point where foreign code can run during the call
+(after each DECREF) and after it.  Slots, objects and sources are arbitrary:
+`t.clone(t)`, a setter given the object the field already holds and cloning
+into a trait that holds objects are instances. -/
+theorem C18_raw_calls_safe (s : MS) (h : s.Inv) (op : Raw.Op) (hop : ∀ i new, op ≠ .setEarly i new) :
+    Safe (compile s op) s := by
+  cases op with
+  | set i new => exact safe_set i new s h
+  | setEarly i new => exact absurd rfl (hop i new)
+  | clear i => exact safe_clear i s h
+  | put ws => exact safe_put' ws s h
+  | copy dst src => exact safe_copy dst src s h
+  | restate dst src => exact safe_restate dst src s h
+  | reset i early => exact safe_reset i early s h
+  | read is => exact safe_read is s h
+
+open TraitsVerif.Model.RefLedger.Raw TraitsVerif.Lemmas.Raw in
+/-- `trait_clone` / `_trait_set_property` never release anything: no checkpoint at all. -/
+theorem C18_raw_clone_never_releases (s : MS) (dst src : List Nat) (ws : List (Nat × Option Nat)) :
+    checkpoints (compile s (.copy dst src)) s = [] ∧ checkpoints (compile s (.put ws)) s = [] := by
+  constructor <;> simp [compile, checkpoints_append, checkpoints_stores, checkpoints_incs]
+
+/-- The same statement for `_trait_set_validate` (release, then store).  FALSE
+for the pinned tree (F79): a trait holding the only reference to its validator
+`1` is given validator `2`; when `1` is released - its finalizer runs - the
+field still points to it. -/
+def C18_raw_set_validate_safe : Prop :=
+  ∀ (s : Model.RefLedger.Raw.MS) (i new : Nat), s.Inv →
+    Model.RefLedger.Raw.Safe (Model.RefLedger.Raw.compile s (.setEarly i new)) s
+
+open TraitsVerif.Model.RefLedger.Raw TraitsVerif.Lemmas.Raw in
+/-- It holds when there is nothing to release, when the new validator IS the
+old one (the aliased call), or when someone else keeps the old one alive. -/
+theorem C18_raw_set_validate_safe_partial (s : MS) (i new : Nat) (h : s.Inv)
+    (hx : s.at i = none ∨ s.at i = some new ∨ ∃ p, s.at i = some p ∧ (s.held p : Int) < s.rc p) :
+    Safe (compile s (.setEarly i new)) s :=
+  safe_setEarly i new s h hx
+
+theorem C18_raw_set_validate_safe_is_false : ¬ C18_raw_set_validate_safe := fun h =>
+  Lemmas.Raw.setEarly_unsafe (h _ 0 2 Lemmas.Raw.soleValidator_inv)
+
+open TraitsVerif.Model.RefLedger.Raw in
+/-- Non-vacuity: a trait (slots 0-5) that owns the only reference to its four
+objects is cloned onto itself - every object keeps a positive count and no
+checkpoint exists; `__setstate__` with its own `__getstate__` likewise; the two
+calls leave one reference too many per object (they overwrite without
+releasing: F79b). -/
+example :
+    let s0 : MS := { ptr := [some 1, some 2, some 3, none, none, some 4],
+                     rc := fun o => if 1 ≤ o ∧ o ≤ 4 then 1 else 0 }
+    let b := [0, 1, 2, 3, 4, 5]
+    let r1 := step s0 (.copy b b)
+    let r2 := step s0 (.restate b b)
+    r1.1.length = 0 ∧ r1.2.ptr = s0.ptr ∧ [1, 2, 3, 4].map r1.2.rc = [2, 2, 2, 2] ∧
+    r2.2.ptr = s0.ptr ∧ [1, 2, 3, 4].map r2.2.rc = [2, 2, 2, 2] ∧
+    visibleDying r2.1 [1, 2, 3, 4] = [] ∧
+    visibleDying (step s0 (.setEarly 1 7)).1 [1, 2, 3, 4] = [2] ∧
+    visibleDying (step s0 (.set 0 7)).1 [1, 2, 3, 4] = [] := by
   decide
 
 end TraitsVerif.Props.C18
